@@ -18,7 +18,7 @@ fn spec(t: Tier) -> Spec {
     Spec {
         id: "C13",
         level: "exploration",
-        rule: format!("(1) a sandbox holding every creatable entry kind (regular empty/non-empty/setuid, hard-link pair, empty and non-empty directory, fifo, socket, symbolic links to each of them, to a link, to a file outside, dangling; link owners differ from target owners; ids 0, 1, 54321, 2^31) is walked under -P, -H, -L from the directory (entries at depth >= 1) and with every entry as its own starting point (depth 0); on every visited entry every test of the vocabulary (-type/-xtype x 7 letters, -links/-inum/-uid/-gid N,+N,-N around the real values and those values plus 2^32, -user/-group by name and number, -empty, -samefile against every entry, -lname '*', 8 -perm operands) is evaluated in comma-list runs of the real find and compared with the oracle computed from lstat()/stat() of the materialised entry (stat-else-lstat where the mode follows at that depth; -xtype the opposite choice; -lname only where the selected record is still a link). (2) {pm} files (and directories in thorough) carrying every permission value x octal operands ({ops}) x forms MODE, -MODE, /MODE against the bit formula. (3) symbolic operands: every sequence of <= {sq} clauses over who x op x perms (chmod semantics applied to 0 with umask 0 — while the process itself runs with umask 027, which must not matter; includes copies like g=u and clauses that remove bits) — the mask the code derives is read off the selection on 25 probe files for -SYM and /SYM and on all 4096 files for SYM, and must equal the reference value. (6) the whole vocabulary once more with the follow mode given as the word -follow AFTER the tests: identical to -L (except -samefile, whose reference file is resolved where the test is written). (4) mounted file systems: a tmpfs on m/mnt (-inum N/+N/-N for every inode number present must follow lstat, also on the mount point) and two tmpfs instances with coinciding inode numbers (-samefile against every file: device and inode must both agree). (5) as uid 65534: links into a mode-000 directory are not dangling (-xtype l false), the dangling one is. evaluation = (entry, test); non-trivial = test on a symbolic link or with a symbolic operand or a permission test", pm = 4096, ops = t.pick("every mask with <= 3 or >= 10 bits set, class masks: 386", "all 4096"), sq = t.pick("1 (all 432) and 2 over a 54-clause subset", "2 (all 432^2)")),
+        rule: format!("(1) a sandbox holding every creatable entry kind (regular empty/non-empty/setuid, hard-link pair, empty and non-empty directory, fifo, socket, symbolic links to each of them, to a link, to a file outside, dangling; link owners differ from target owners; ids 0, 1, 54321, 2^31) is walked under -P, -H, -L from the directory (entries at depth >= 1) and with every entry as its own starting point (depth 0); on every visited entry every test of the vocabulary (-type/-xtype x 7 letters, -links/-inum/-uid/-gid N,+N,-N around the real values and those values plus 2^32, -user/-group by name and number, -empty, -samefile against every entry, -lname '*', 8 -perm operands) is evaluated in comma-list runs of the real find and compared with the oracle computed from lstat()/stat() of the materialised entry (stat-else-lstat where the mode follows at that depth; -xtype the opposite choice; -lname only where the selected record is still a link). (2) {pm} files (and directories in thorough) carrying every permission value x octal operands ({ops}) x forms MODE, -MODE, /MODE against the bit formula. (3) symbolic operands: every sequence of <= {sq} clauses over who x op x perms (chmod semantics applied to 0 with umask 0 — while the process itself runs with umask 027, which must not matter; includes copies like g=u and clauses that remove bits) — the mask the code derives is read off the selection on 25 probe files for -SYM and /SYM and on all 4096 files for SYM, and must equal the reference value. (6) the whole vocabulary once more with the follow mode given as the word -follow AFTER the tests: identical to -L (except -samefile, whose reference file is resolved where the test is written). (4) mounted file systems: a tmpfs on m/mnt (-inum N/+N/-N for every inode number present must follow lstat, also on the mount point) and two tmpfs instances with coinciding inode numbers (-samefile against every file: device and inode must both agree). (5) as uid 65534: links into a mode-000 directory are not dangling (-xtype l false), the dangling one is. evaluation = (entry, test); non-trivial = test on a symbolic link or with a symbolic operand or a permission test; low-descriptor slice: 150 directories (one file each, all hard links to one inode, plus a link to it) walked by the binary under RLIMIT_NOFILE 64: -samefile, -inum, -links, -type, -xtype, -lname, -empty, -perm, -uid select the expected number of entries under -P and -L; removed-entry slice: an entry removed by an earlier -exec rm in the same expression before the test looks at it: standard output is exactly the entries the test selects (the diagnostic belongs on standard error)", pm = 4096, ops = t.pick("every mask with <= 3 or >= 10 bits set, class masks: 386", "all 4096"), sq = t.pick("1 (all 432) and 2 over a 54-clause subset", "2 (all 432^2)")),
         bound: json!({"follow": ["-P","-H","-L"], "perm_values": 4096, "octal_operands": t.pick(386, 4096), "symbolic_clauses": 432, "symbolic_sequences": t.pick("432 + 54^2", "432 + 432^2")}),
         assumptions: vec![
             "a -samefile reference that is itself a symbolic link is judged under -P (lstat) and -L (stat) only; under -H it is run for determinism".into(),
